@@ -63,3 +63,14 @@ Proof. exact int64cast_refuted. Qed.
 Example C12_accept_example :
   plasma_check 1000000000000 100 21100 21000 20000 1500000 true = POk 21000 21000 41100.
 Proof. vm_compute. reflexivity. Qed.
+
+(* the PoW model the theorems above are about is the code: target and comparison equal pow.getTargetByDifficulty and
+   pow.greaterDifficulty as translated from pow/pow.go by go2coq on every run (gen/Pure.v) *)
+Theorem C12_target_is_the_source : forall d, ZV.gen.Pure.getTargetByDifficulty d = GoSem.Ok (target_value d).
+Proof. exact target_value_is_source. Qed.
+Theorem C12_comparison_is_the_source : forall x0 x1 x2 x3 x4 x5 x6 x7 tx y0 y1 y2 y3 y4 y5 y6 y7 ty,
+  let x := [x0; x1; x2; x3; x4; x5; x6; x7] ++ tx in
+  let y := [y0; y1; y2; y3; y4; y5; y6; y7] ++ ty in
+  ZV.gen.Pure.greaterDifficulty (Z.of_nat (length x)) x7 (Z.of_nat (length y)) y7 x6 y6 x5 y5 x4 y4 x3 y3 x2 y2 x1 y1 x0 y0
+  = GoSem.Ok (greater x y).
+Proof. exact greater_is_source. Qed.
